@@ -90,6 +90,34 @@ func sepBytesRule(r *Report, p *Prog, rule string) int {
 			r.ok(rule, key, p.pos(typeOf.Pos()), "a version byte for PyPI")
 		}
 	}
+	// Maven: a range specification is cut at brackets and commas only, and any
+	// string is a Maven version (Maven.Parse refuses nothing): every printable
+	// byte that is not part of the range syntax is a version byte for Maven.
+	maven, _ := pk.Types.Scope().Lookup("Maven").(*types.Const)
+	if maven == nil {
+		r.bad(rule, "typeOf(Maven, ...)", p.pos(typeOf.Pos()), "constant Maven not found: anchor lost")
+		return n
+	}
+	var wrong []string
+	for b := int64(0x21); b <= 0x7E; b++ {
+		if b == '[' || b == ']' || b == '(' || b == ')' || b == ',' {
+			continue
+		}
+		n++
+		got, ok := evalTypeOf(pk, typeOf, recvName, argName, maven.Val(), constant.MakeInt64(b), classes)
+		if !ok {
+			r.bad(rule, "typeOf(Maven, printable bytes)", p.pos(typeOf.Pos()), "System.typeOf is no longer of the shape this rule interprets: anchor lost")
+			return n
+		}
+		if got != want {
+			wrong = append(wrong, fmt.Sprintf("%q", rune(b)))
+		}
+	}
+	if len(wrong) > 0 {
+		r.bad(rule, "typeOf(Maven, printable bytes)", p.pos(typeOf.Pos()), fmt.Sprintf("any string is a Maven version (Maven.Parse accepts it) and a range specification is cut at brackets and commas only, but the constraint tokenizer does not class %v as version bytes for Maven: a bare version such as ${revision} or 1.0~1, a soft requirement for Maven, and a range such as [1.0~1,2.0) are syntax errors", wrong))
+	} else {
+		r.ok(rule, "typeOf(Maven, printable bytes)", p.pos(typeOf.Pos()), "every printable byte outside the range syntax is a version byte for Maven")
+	}
 	return n
 }
 
@@ -141,59 +169,69 @@ func evalTypeOf(pk *packages.Package, fd *ast.FuncDecl, recv, arg string, sys, r
 		}
 		return nil, false
 	}
-	for _, st := range fd.Body.List {
-		switch s := st.(type) {
-		case *ast.IfStmt:
-			if s.Init != nil || s.Else != nil {
-				return 0, false
-			}
-			c, ok := eval(s.Cond)
-			if !ok || c.Kind() != constant.Bool {
-				return 0, false
-			}
-			if !constant.BoolVal(c) {
-				continue
-			}
-			for _, b := range s.Body.List {
-				if ret, ok := b.(*ast.ReturnStmt); ok && len(ret.Results) == 1 {
-					v, ok := eval(ret.Results[0])
-					if !ok {
-						return 0, false
-					}
-					x, _ := constant.Int64Val(constant.ToInt(v))
-					return x, true
+	// evalIndex: byteType[<expr>]
+	evalByteType := func(ix *ast.IndexExpr) (constant.Value, bool) {
+		if id, ok := ix.X.(*ast.Ident); !ok || id.Name != "byteType" {
+			return nil, false
+		}
+		i, ok := eval(ix.Index)
+		if !ok {
+			return nil, false
+		}
+		k, _ := constant.Int64Val(constant.ToInt(i))
+		if k < 0 || int(k) >= len(classes) {
+			return nil, false
+		}
+		return constant.MakeInt64(classes[k]), true
+	}
+	inner := eval
+	eval = func(e ast.Expr) (constant.Value, bool) {
+		if ix, ok := ast.Unparen(e).(*ast.IndexExpr); ok {
+			return evalByteType(ix)
+		}
+		return inner(e)
+	}
+	var run func(list []ast.Stmt) (int64, bool, bool) // value, returned, understood
+	run = func(list []ast.Stmt) (int64, bool, bool) {
+		for _, st := range list {
+			switch s := st.(type) {
+			case *ast.IfStmt:
+				if s.Init != nil || s.Else != nil {
+					return 0, false, false
 				}
-			}
-			return 0, false
-		case *ast.ReturnStmt:
-			// return byteType[r]
-			if len(s.Results) != 1 {
-				return 0, false
-			}
-			ix, ok := ast.Unparen(s.Results[0]).(*ast.IndexExpr)
-			if !ok {
+				c, ok := eval(s.Cond)
+				if !ok || c.Kind() != constant.Bool {
+					return 0, false, false
+				}
+				if !constant.BoolVal(c) {
+					continue
+				}
+				v, returned, ok := run(s.Body.List)
+				if !ok {
+					return 0, false, false
+				}
+				if returned {
+					return v, true, true
+				}
+			case *ast.ReturnStmt:
+				if len(s.Results) != 1 {
+					return 0, false, false
+				}
 				v, ok := eval(s.Results[0])
 				if !ok {
-					return 0, false
+					return 0, false, false
 				}
 				x, _ := constant.Int64Val(constant.ToInt(v))
-				return x, true
+				return x, true, true
+			default:
+				return 0, false, false
 			}
-			if id, ok := ix.X.(*ast.Ident); !ok || id.Name != "byteType" {
-				return 0, false
-			}
-			i, ok := eval(ix.Index)
-			if !ok {
-				return 0, false
-			}
-			k, _ := constant.Int64Val(constant.ToInt(i))
-			if k < 0 || int(k) >= len(classes) {
-				return 0, false
-			}
-			return classes[k], true
-		default:
-			return 0, false
 		}
+		return 0, false, true
 	}
-	return 0, false
+	v, returned, ok := run(fd.Body.List)
+	if !ok || !returned {
+		return 0, false
+	}
+	return v, true
 }
